@@ -329,12 +329,22 @@ impl<'p> CoroutinePool<'p> {
         if SchedulableCoroutine::current().is_some() {
             let timeout_time = get_timeout_time(wait_time);
             loop {
-                _ = self.try_run();
+                #[cfg(feature = "verif")]
+                let idle = self.try_run().is_none();
+                #[cfg(not(feature = "verif"))]
+                {
+                    _ = self.try_run();
+                }
                 if let Some(r) = self.try_take_task_result(task_id) {
                     return Ok(r);
                 }
                 if timeout_time.saturating_sub(now()) == 0 {
                     return Err(Error::new(ErrorKind::TimedOut, "wait timeout"));
+                }
+                // a busy wait on the clock: under the harness' virtual clock time has to pass here
+                #[cfg(feature = "verif")]
+                if idle {
+                    _ = crate::verif::clock_advance(Duration::from_millis(1));
                 }
             }
         }
